@@ -770,6 +770,52 @@ fn main() {
             single_series(&mut em, &mut rng, &s, false);
         }
     }
+    // ---- hostile values for the exact (order / count / position) groups ---------------------------
+    // +-inf, the largest finite magnitudes, signed zeros, both signs of NaN: nothing is computed with them except
+    // comparisons (and one running sum, which the float model mirrors operation by operation), so the comparison
+    // with the model stays exact.  A fold seeded with T::MIN / T::MAX instead of the first valid element, or a
+    // comparison that is not null-last for a NaN with the sign bit set, shows up only here.
+    {
+        use tevec::prelude::{TIter, Vec1View};
+        let neg_nan = f64::from_bits(f64::NAN.to_bits() | (1u64 << 63));
+        let hostile: [f64; 8] = [f64::NEG_INFINITY, f64::INFINITY, f64::MAX, f64::MIN, 1.5, -0.0, f64::NAN, neg_nan];
+        let hl = if thorough { 4 } else { 3 };
+        for len in 1..=hl {
+            for xf in enumerate(&hostile, len) {
+                // (the thorough tier samples a quarter of the 4096 series of length 4)
+                if len == 4 && !rng.chance(1, 4) { continue; }
+                let cf = coq_f(&xf);
+                let shown = format!("{:?} (bits {:?})", xf, xf.iter().map(|x| format!("{:016x}", x.to_bits())).collect::<Vec<_>>());
+                let nv = xf.iter().filter(|x| !x.is_nan()).count();
+                let vals_f = vec![0.0, f64::INFINITY, f64::NEG_INFINITY, f64::NAN];
+                let vals_f_coq = coq_f(&vals_f);
+                let tg = |g: &str, ty: &str, src: &str| format!("fn={} ty={} src={} len={} nv={} style=hostile", g, ty, src, len, nv);
+                let ds = |g: &str, ty: &str, src: &str, layout: &str| format!("group={} ty={} src={} xs={} vals={} ; {}", g, ty, src, shown, vals_f_coq, layout);
+                em.case("custom:exact", &tg("sym", "f64", "vec"), &ds("sym", "f64", "vec", SYM_LAYOUT),
+                    || pack(format!("(sym_f {} {})", vals_f_coq, cf)), || run(|| imp::sym(|| xf.clone(), &vals_f)));
+                em.case("custom:exact", &tg("pos", "f64", "titer"), &ds("pos", "f64", "titer", POS_LAYOUT),
+                    || pack(format!("(pos_f {})", cf)), || run(|| imp::pos(|| xf.titer())));
+                // the option view and the Option<f64> encoding of the same logical series
+                let o = xf.opt();
+                let vals_o: Vec<Option<f64>> = vals_f.iter().map(|x| if x.is_nan() { None } else { Some(*x) }).collect();
+                em.case("custom:exact", &tg("sym", "f64", "opt"), &ds("sym", "f64", "opt", SYM_LAYOUT),
+                    || pack(format!("(sym_f {} {})", vals_f_coq, cf)), || run(|| imp::sym(|| &o, &vals_o)));
+                let xo: Vec<Option<f64>> = xf.iter().map(|x| if x.is_nan() { None } else { Some(*x) }).collect();
+                let co = coq_of(&xo);
+                let vals_o_coq = coq_of(&vals_o);
+                em.case("custom:exact", &tg("sym", "optf64", "vec"), &ds("sym", "optf64", "vec", SYM_LAYOUT),
+                    || pack(format!("(sym_o {} {})", vals_o_coq, co)), || run(|| imp::sym(|| xo.clone(), &vals_o)));
+                em.case("custom:exact", &tg("pos", "optf64", "titer"), &ds("pos", "optf64", "titer", POS_LAYOUT),
+                    || pack(format!("(pos_o {})", co)), || run(|| imp::pos(|| xo.titer())));
+                if len <= 2 || rng.chance(1, 4) {
+                    let x32: Vec<f32> = xf.iter().map(|x| if *x == f64::MAX { f32::MAX } else if *x == f64::MIN { f32::MIN } else { *x as f32 }).collect();
+                    let c32 = coq_f(&x32.iter().map(|x| *x as f64).collect::<Vec<f64>>());
+                    em.case("custom:exact", &tg("pos", "f32", "titer"), &ds("pos", "f32", "titer", POS_LAYOUT),
+                        || pack(format!("(pos_f {})", c32)), || run(|| imp::pos(|| x32.titer())));
+                }
+            }
+        }
+    }
     // ---- single series: structured random ------------------------------------------------------
     let nrand = if thorough { 2000 } else { 300 };
     let mut randoms: Vec<Series> = vec![];
